@@ -2,7 +2,7 @@
 import miros.activeobject as AO
 import miros.event as EV
 import miros.singleton as SG
-from vt import detsched as ds, sysx
+from vt import detsched as ds, sysx, osback
 
 ID = 'C30'
 ENGINE = 'detsched'
@@ -13,10 +13,11 @@ RULE = ('2-5 real threads make the FIRST request of a fresh SingletonDecorator o
         'lazily); detsched switches threads at every bytecode boundary of SingletonDecorator.__call__ and every line of the constructors '
         '(seeded random and PCT schedules); all returned objects must be the same object and later requests must return it too. ' +
         sysx.RULE_TEXT % (1, 3) +
+        'Every twentieth case is a second opinion on REAL threads with the real primitives (vt/osback.py: nothing substituted, switch interval 1 us, random yields at line starts of miros code): 2-6 threads released from a barrier make the first request of a fresh decorator. '
         'distinct_nontrivial = distinct context-switch sequences in which >= 2 threads were inside __call__ at the same time')
 CASES = {'quick': 1500, 'thorough': 100000}
 BUDGET = {'quick': 150, 'thorough': 600}
-REQUIRE = {'runs': 800, 'overlapping_first_requests': 200, 'active_object_constructions': 100, 'systematic_schedules': 300, 'systematic_scenarios_exhausted': 6}
+REQUIRE = {'runs': 800, 'overlapping_first_requests': 200, 'active_object_constructions': 100, 'systematic_schedules': 300, 'systematic_scenarios_exhausted': 6, 'os_backend_runs': 40}
 SYS = {'quick': (16, 1, 2500, 30.0), 'thorough': (32, 3, 100000, 150.0)}     # systematic cases, preemption bound, schedule cap, seconds cap (per scenario)
 ASSUME = ['fresh SingletonDecorator objects per run (same class as the module-level ones); module-level instances created at import are not re-raced']
 ANNOUNCE_CASES = True
@@ -24,7 +25,36 @@ KLASSES = ['ActiveFabricSource', 'SignalSource', 'ReturnStatusSource', 'SourceTh
 
 
 def run_case(ctx, n):
+  if n % 20 == 19:
+    return os_case(ctx, n)
   sysx.run_case(ctx, n, SYS, scenario)
+
+
+def os_case(ctx, n):
+  """second opinion on real threads with the real primitives (vt/osback.py): nothing substituted, interleavings perturbed"""
+  rng = ctx.rng('os', n)
+  kind = rng.choice(KLASSES)
+  nthreads = rng.randint(2, 6)
+  klass = getattr(AO, kind, None) or getattr(EV, kind)
+  dec = SG.SingletonDecorator(klass)
+  got = {}
+
+  def req(i):
+    got[i] = dec()
+  with osback.Perturb(rng.randrange(1 << 30), p_yield=rng.choice([0.1, 0.3, 0.6])) as P:
+    finished, excs = osback.run_threads([(req, (i,)) for i in range(nthreads)])
+  ctx.count('os_backend_yields_injected', P.nyields)
+  if not finished:
+    ctx.count('os_backend_inconclusive')
+    return
+  ctx.count('os_backend_runs')
+  wit = {'backend': 'os threads', 'kind': kind, 'threads': nthreads}
+  if excs:
+    ctx.violation('C30/exception-in-thread', 'real threads: a requesting thread died: %r' % excs, wit)
+    return
+  got[-1] = dec()
+  if len(set(id(o) for o in got.values())) != 1:
+    ctx.violation('C30/two-instances', 'real threads: %d distinct %s instances were handed out to %d concurrent first requests' % (len(set(id(o) for o in got.values())), kind, nthreads), wit)
 
 
 def scenario(ctx, n):
